@@ -3,6 +3,7 @@
 package pfcpiface
 
 import (
+	"context"
 	"github.com/google/gopacket"
 	"github.com/google/gopacket/layers"
 	"math/rand"
@@ -38,12 +39,17 @@ func vNewEnv(ueIPAlloc bool) *vEnv {
 		maxReqRetries:   2,
 		respTimeout:     time.Second,
 		reportNotifyChan: make(chan uint64, 16),
+		hbInterval:       time.Hour,
 	}
+	// service loops started by handlers are not run by the engine (natively the
+	// heartbeat monitor idles on its one-hour ticker)
+	vSkipGo("(*github.com/omec-project/upf-epc/pfcpiface.PFCPConn).startHeartBeatMonitor")
 	if ueIPAlloc {
 		e.u.ippool, _ = NewIPPool("10.250.0.0/29")
 	}
 	e.done = make(chan string, 4)
 	e.pc = &PFCPConn{
+		ctx:            context.Background(),
 		Conn:           e.conn,
 		ts:             recoveryTS{local: vTS},
 		rng:            rand.New(&vRandSource{}),
